@@ -198,12 +198,7 @@ mut('c18-irfftn-shape-revert', 'C18', 'odl/trafos/fourier.py',
     "            return np.fft.irfftn(x, axes=self.axes)")
 mut('c18-preproc-phase-odd', 'C18', 'odl/trafos/util/ft_utils.py',
     "            factor = np.ones(length, dtype=out.dtype)\n            factor[1::2] = -1\n        else:\n            factor = np.arange(length, dtype=out.dtype)\n            factor *= -imag * np.pi * (1 - 1.0 / length)",
-    "            factor = np.ones(length, dtype=out.dtype)\n            factor[1::2] = -1 if length % 2 == 0 else 1\n        else:\n            factor = np.arange(length, dtype=out.dtype)\n            factor *= -imag * np.pi * (1 - 1.0 / length)",
-    known_miss=True)   # a phase error applied consistently by both back-ends
-#                        and undone by the inverse: only the clause "converges
-#                        to the analytic transform of a Gaussian" sees it, and
-#                        that clause is a pure function of the input (not
-#                        decided by this technique, see DESIGN 4/C18)
+    "            factor = np.ones(length, dtype=out.dtype)\n            factor[1::2] = -1 if length % 2 == 0 else 1\n        else:\n            factor = np.arange(length, dtype=out.dtype)\n            factor *= -imag * np.pi * (1 - 1.0 / length)")
 mut('c18-pyfftw-only-phase', 'C18', 'odl/trafos/fourier.py',
     "        # The actual call to the FFT library. We store the plan for re-use.\n        # The FFT is calculated in-place, except if the range is real and\n        # we don't use halfcomplex.\n        direction = 'forward' if self.sign == '-' else 'backward'",
     "        if preproc.ndim == 2 and preproc.shape[0] == 3:\n            preproc[0] *= -1\n        direction = 'forward' if self.sign == '-' else 'backward'")
